@@ -41,16 +41,16 @@ T = {
  'C12': ('CFG exit discipline + exception-flow analysis over solvers, integrators, transitions',
          'every solver return is under a convergence test on the returned iterate, all other exits raise ConvergenceError, foreign ValueError/LinAlgError are converted, no name used on a raise path can be unbound, raise taxonomy under IntegratorError, guarded step calls, handlers record and contain, NaN guards on energies',
          'finiteness of values as a numeric fact not decided'),
- 'C13': ('Optional-narrowing dataflow, definite-assignment of statistics keys, index linear forms, sibling agreement of storage branches',
+ 'C13': ('abstract runs of sample_chains / stagers over labelled tokens (row contents vs the documented semantics; in-memory, memory-mapped, two-process) + Optional-narrowing dataflow, definite-assignment of statistics keys, index linear forms, sibling agreement of storage branches',
          'documented None options are narrowed before arithmetic/comparison; returned statistics keys == declared statistic_types on every path; row index = sample_index + offset; trace written after transitions; offset advances iff stage records; in-memory and memmap branches agree on shape/fill/dtype (boolean equivalence of the execution condition); worker outputs restored to chain order before collation; one memory-map file per array',
          'equality of recorded numbers with states at run time not decided'),
- 'C14': ('value-flow of generators across the process boundary + ambient-randomness scan + order-restoration rule + must-fact dataflow on adapter start-up',
+ 'C14': ('abstract runs of sample_chains (generator identity and counter continuity per chain across stages / processes, out-of-order worker assignment) + value-flow of generators across the process boundary + ambient-randomness scan + order-restoration rule + must-fact dataflow on adapter start-up',
          'per-chain generators derived injectively from chain index; no legacy/global RNG use; worker outputs re-ordered by chain index; generator state mutated in workers is written back to the parent objects (order typing of every list between results.get() and collation); adapted transition parameters are reset before use in initialize; adapter objects are not written by per-chain methods; nothing draws from the base generator once per chain before the state-relative derivation (known finding F16)',
          'races inside NumPy/OS not decided'),
- 'C15': ('handler-chain analysis from the iteration body to the public return',
+ 'C15': ('abstract runs of sample_chains with a keyboard interrupt injected at every model call and parent wait + handler-chain analysis from the iteration body to the public return',
          "iteration loop inside try with non-reraising KeyboardInterrupt handler and flushing finally; interrupt value reaches the stage loop test on every path; interrupted chain's outputs are still collected; no later stage is started",
          'exact prefix equality as data not decided'),
- 'C16': ('polynomial partition identity over stager code, who-may-write on transition parameters, empty-stage guard',
+ 'C16': ('abstract runs of sample_chains + stagers (iteration counts, adapter brackets confined to warm-up) + polynomial partition identity over stager code, who-may-write on transition parameters, empty-stage guard',
          'warm-up stage lengths sum to n_warm_up_iter; main stage last/non-adaptive/recording; fast stages get only fast adapters; only constructors/adapters write step_size/metric; a stage with zero iterations is never initialised/finalised; finalisation guarded exactly by non-emptiness and visiting every (transition, adapter) pair',
          'nothing numeric involved beyond integer arithmetic of the stagers'),
  'C17': ('exact symbolic execution of the online updates (rational polynomials) + case analysis of initialize + transition table of the initial search + post-condition rules on finalize',
